@@ -22,7 +22,7 @@ func H_indep() {
 	argvA := vArgvFor(vParamString("profile"))
 	vNoHelp(argvA)
 	vResetShared()
-	cfgA := vAppCfg{spec: sa, envAll: true, policy: flag.ContinueOnError, shared: true}
+	cfgA := vAppCfg{spec: sa, envAll: true, policy: flag.ContinueOnError, shared: true, version: true}
 	vEnvCandidates = 15
 	env := vSymbolicEnv()
 	switch mode {
@@ -68,6 +68,32 @@ func H_indep() {
 		vAssert(r1.argvIntact && r2.argvIntact, "C20: the library modified the caller's argument vector")
 		vAssert(vSameOutcome(r1, r2), "C20: rebuilding and rerunning the same application gave a different outcome")
 		vCover("determinism")
+	case "sharedvar":
+		// an option and an argument bound to one variable: the argument is filled last,
+		// whatever order maps are iterated in
+		vMapOrder(2)
+		res := func() (int, bool) {
+			stdErr = vDiscard{}
+			exiter = func(code int) { panic(vExitPanic{code}) }
+			app := App("app", "")
+			app.ErrorHandling = flag.ContinueOnError
+			n := 0
+			app.IntOptPtr(&n, "n", 7, "")
+			app.IntArgPtr(&n, "N", 7, "")
+			app.Spec = "[-n] [N]"
+			var err error
+			func() {
+				defer func() { recover() }()
+				err = app.Run([]string{"app", "-n=1", "2"})
+			}()
+			return n, err != nil
+		}
+		n1, e1 := res()
+		n2, e2 := res()
+		vObserve("n", n1)
+		vAssert(n1 == n2 && e1 == e2, "C20: rebuilding and rerunning the same application gave a different outcome")
+		vAssert(n1 == 2 && !e1, "C20: options are applied before arguments")
+		vCover("sharedvar")
 	case "envtime":
 		// the outcome depends on the environment at declaration time only: variables that
 		// appear between declaration and Run (set by another application's Action, say)
